@@ -154,21 +154,29 @@ def run_real(case, G, lattice_rng):
                                             grid_order=[1, int(mesh[0]), int(mesh[0] * mesh[1])], lang=lang)
             tv.append([[[int(round(x)) for x in row] for row in band] for band in tf])
         ev[key] = tv
-    for lang, key in (("C", "wC"), ("Py", "wPy")):
-        w = {}
-        for fn in ("I", "J"):
-            thm = TetrahedronMesh(cell, freqs, mesh, grid_address, mapping, ir, lang=lang)
-            thm.set(value=fn, frequency_points=ws, lang=lang)
-            per_ir = []
-            for iw in thm:
-                a = np.array(iw) * n  # (nfreq, nband) -> [b][j]
-                per_ir.append(rat_tree(a.T, flags))
-            w[fn] = per_ir
-        ev[key] = w
     coef = np.array(case["coef"], dtype="double")  # (n_ir, ncoef, nband)
-    pd = run_tetrahedron_method_dos(mesh, ws, freqs, grid_address, mapping, tmC.tetrahedra, coef=coef)
-    td = run_tetrahedron_method_dos(mesh, ws, freqs, grid_address, mapping, tmC.tetrahedra)
-    full = np.concatenate([np.array(pd), np.array(td)[:, None]], axis=1)  # (nfreq, ncoef+1)
-    ev["dosK"] = dict(I=rat_tree(full, flags))
+
+    def weights_and_dos(points, suffix):
+        for lang, key in (("C", "wC"), ("Py", "wPy")):
+            w = {}
+            for fn in ("I", "J"):
+                thm = TetrahedronMesh(cell, freqs, mesh, grid_address, mapping, ir, lang=lang)
+                thm.set(value=fn, frequency_points=points, lang=lang)
+                per_ir = []
+                for iw in thm:
+                    a = np.array(iw) * n  # (nfreq, nband) -> [b][j]
+                    per_ir.append(rat_tree(a.T, flags))
+                w[fn] = per_ir
+            ev[key + suffix] = w
+        pd = run_tetrahedron_method_dos(mesh, points, freqs, grid_address, mapping, tmC.tetrahedra, coef=coef)
+        td = run_tetrahedron_method_dos(mesh, points, freqs, grid_address, mapping, tmC.tetrahedra)
+        full = np.concatenate([np.array(pd), np.array(td)[:, None]], axis=1)  # (nfreq, ncoef+1)
+        ev["dosK" + suffix] = dict(I=rat_tree(full, flags))
+
+    # the frequency points in the order of the case (any order), and the same points ascending
+    weights_and_dos(ws, "")
+    order = sorted(range(len(ws)), key=lambda j: (ws[j], j))
+    ev["asc"] = [j + 1 for j in order]
+    weights_and_dos(np.array([ws[j] for j in order], dtype="double"), "asc")
     ev["exact"] = bool(all(flags))
     return ev
